@@ -19,6 +19,9 @@ def run(ck):
         ck.guard("C08-R2", r2_threshold, ck, F)
         ck.guard("C08-R2", r2_rounding, ck, F)
         ck.guard("C08-R3", r3_grow, ck, F)
+        # a spill leaves the buffer empty: both counters zeroed (shared with C07-R2)
+        from .c07 import r2_clear
+        ck.guard("C08-R3", r2_clear, ck, F, "C08-R3")
         ck.guard("C08-R4", r4_chunk_cap, ck, F)
         ck.guard("C08-R5", r5_creator, ck, F)
         ck.guard("C08-R6", r6_plumb, ck, F)
